@@ -21,6 +21,13 @@ Every op that the dispatcher may or may not guard carries the generator's INDEPE
 (`dm` = runs on the data-mover core only, `compute` = runs on the compute core only, `all` = runs on every core).
 Nothing in this file looks at snaxc.util.dispatching_rules.
 
+Options of gen_program: `sync_ops` (pre-existing barriers), `dealloc` (memref.dealloc of buffers allocated in the same block),
+`xdma` (needs the accelerator "snax_xdma" registered in the context: make_ctx(extra_accelerators={"snax_xdma":
+SNAXXDMAAccelerator})), `multi_block` (18% of the programs get 2-4 blocks), `helper` (12% get a second function @helper with the
+same signature, called once from @main's entry block; 3% of the modules already declare @snax_cluster_core_idx).
+Runtime: execute @main; memref arguments are static (8x8 / 16); %n0 %n1 in 0..3 keep every induction variable <= 2 so that
+4x4 subviews with induction-variable offsets stay inside the 8x8 buffers.
+
 API
     prog = gen_program(rng, sync_ops=False, dealloc=False, xdma=True, multi_block=True, helper=True)  -> CoresProgram
     vecs = input_vectors(prog, rng, n)      -> list of {"n0":..,"n1":..,"b0":..,"b1":..}
